@@ -11,6 +11,14 @@ CHECKS = {
    text="Lean theorems over every boolean list and every rational min_n_cycles: the transcribed transition/clear loop equals the pointwise run-length rule (C08_pointwise), whole runs kept/cleared, no new True, idempotent, edge runs like interior runs, antitone in k, monotone in the mask, guards. The same run executes model, spec and the real check_min_burst_cycles on every boolean array up to a length bound (exhaustive) and random long arrays; the judge is equality of the implementation with the Lean spec.",
    note=NOTE_COMMON + "Not covered: in-place mutation of the caller's array (outside the statement).",
    technique="Lean 4 proof (induction over maximal runs) + exhaustive/random correspondence of model, spec and implementation", ref="6 C08"),
+ 'C06': dict(
+   text="Lean theorems over every table (any length, NaNs anywhere), every threshold vector and every min_n_cycles: the transcription of detect_bursts_cycles - whose comparators, conjunction, forced-False indices and defaults are re-extracted from /repo's AST on every run - equals the threshold-and-run rule (interior, all four STRICTLY above threshold, maximal run >= min_n_cycles); soundness/completeness, end rule, strictness and NaN, antitonicity in every threshold and in min_n_cycles, rejection of out-of-range settings. The run compares model, spec and the real function on synthetic tables with values on and one ulp beside the thresholds, on tables produced by compute_features (kwarg routing), and judges antitonicity on pairs of real runs.",
+   note=NOTE_COMMON + "Orders on float64 and on the rationals coincide, so comparisons are exact. The burst features themselves are C05's subject.",
+   technique="Lean 4 proof over a slot-regenerated model + differential correspondence + Lean spec as judge", ref="6 C06"),
+ 'C07': dict(
+   text="Lean theorems for every sample mask, every cycle table and every setting: burst_fraction is the fraction of the samples last..next INCLUSIVE that the detector marks; labels are fraction >= threshold followed by the minimum-run rule; one and the same min_n_cycles (burst options, else thresholds, else 3) reaches detector and run filter; antitone in the threshold; guards. The sample-wise dual-threshold detector is a parameter (arbitrary mask). The run recomputes the mask with neurodsp for the min_n_cycles the spec prescribes and compares compute_features(burst_method='amp') end to end on partially bursting signals, both centrings, all four routings of min_n_cycles.",
+   note=NOTE_COMMON + "neurodsp.burst.detect_bursts_dual_threshold is modelled as a parameter, not verified; min_burst_duration=None as in the statement. Inputs on which the neurodsp kernel itself raises (whole signal bursting) are counted as kernel errors, not judged.",
+   technique="Lean 4 proof (kernel as parameter) + differential correspondence with recorded kernel output", ref="6 C07"),
 }
 NA_REASON = "check under construction (see DESIGN.md section 6); not yet claimed"
 m = {"version": 1, "setup_cmd": "./setup.sh",
